@@ -51,7 +51,8 @@ type Prog struct {
 	refined   map[*ssa.BasicBlock]FactSet
 	callersOf map[*ssa.Function][]ssa.CallInstruction
 
-	zoneInContext bool // a calling-context analysis is in progress (no nesting)
+	zoneInContext bool                              // a calling-context analysis is in progress (no nesting)
+	context       map[*ssa.Function]ssa.Instruction // function -> its only call site (SetContext)
 
 	// Renamed records anchors that were resolved by role: "rel.recv.name" -> current name.
 	Renamed map[string]string
